@@ -114,7 +114,13 @@ fn pos_docs<X: Serialize>(f: Fmt, p: Pos, mk: impl Fn() -> X, out: &mut Vec<Vec<
         Pos::Bare => to_bytes(f, &mk()),
         Pos::VecElem => to_bytes(f, &vec![mk(), mk()]),
         Pos::OptionSome => to_bytes(f, &Some(mk())),
-        Pos::StructField => to_bytes(f, &Wrap { a: mk(), b: 7 }),
+        Pos::StructField => {
+            if f == Fmt::MsgPack {
+                // also the named (map) encoding of the struct
+                out.extend(rmp_serde::to_vec_named(&Wrap { a: mk(), b: 7 }).ok());
+            }
+            to_bytes(f, &Wrap { a: mk(), b: 7 })
+        }
         Pos::MapValue => {
             let mut m = BTreeMap::new();
             m.insert("k".to_string(), mk());
